@@ -570,7 +570,7 @@ func (g *gen) shadowExpr(s int) string {
 // local declaration of the same name whose scope does not cover the reference.
 func (g *gen) edgeStmt(j int) string {
 	n := g.nodes[j].name
-	k := g.c.Intn(22)
+	k := g.c.Intn(27)
 	var text, lab string
 	switch k {
 	case 0, 1, 2:
@@ -614,6 +614,18 @@ func (g *gen) edgeStmt(j int) string {
 		text, lab = n+": for { "+g.stmtUse(j)+"; break "+n+" }", "under-same-label"
 	case 20:
 		text, lab = "if "+n+" := 1; "+n+" > 1 { } ; "+g.stmtUse(j), "after-if-init-scope"
+	case 22:
+		text, lab = "for "+n+" := range []int{1} { _ = "+n+" }; "+g.stmtUse(j), "after-range-scope"
+	case 23:
+		text, lab = "for _, "+n+" := range []int{1} { _ = "+n+" }; "+g.stmtUse(j), "after-range-value-scope"
+	case 24:
+		text, lab = "switch "+n+" := 1; "+n+" { default: }; "+g.stmtUse(j), "after-switch-init-scope"
+	case 25:
+		x := g.temp("x")
+		text, lab = "var "+x+" interface{} = 1; switch "+n+" := "+x+".(type) { default: _ = "+n+" }; "+g.stmtUse(j), "after-typeswitch-scope"
+	case 26:
+		ch := g.temp("ch")
+		text, lab = ch+" := make(chan int, 1); "+ch+" <- 1; select { case "+n+" := <-"+ch+": _ = "+n+" }; "+g.stmtUse(j), "after-select-scope"
 	default:
 		text, lab = "for "+n+" := 0; "+n+" < 1; "+n+"++ { }; "+g.stmtUse(j), "after-for-init-scope"
 	}
